@@ -294,6 +294,29 @@ func directedBus(name string, idx int) (*busProgram, func([]who) who) {
 		p.opts, p.optArgs = []string{"store", "beforeCtx"}, []int{0, 1}
 		p.threads = [][]action{{sub(0, hspec{fn: 0, filter: -1}), pub(0, 1, 0)}}
 		return p, newestPick
+	case name == "bus03" && idx == 0:
+		// the documented exception: a synchronous Sequential handler publishes an event that is delivered back to itself
+		p := base()
+		p.bodies[1] = []action{pub(0, 2, 0)}
+		p.threads = [][]action{{sub(0, hspec{fn: 0, seq: true, filter: -1, body: 1}), pub(0, 1, 0), {kind: "count", t: 0}}}
+		return p, newestPick
+	case name == "bus03" && idx == 1:
+		// the same through a second handler: H0 (Sequential, type 0) publishes type 1, whose handler publishes type 0 again
+		p := base()
+		p.bodies[1] = []action{pub(1, 2, 0)}
+		p.bodies[2] = []action{pub(0, 3, 0)}
+		p.threads = [][]action{{sub(0, hspec{fn: 0, seq: true, filter: -1, body: 1}), sub(1, hspec{fn: 2, filter: -1, body: 2}), pub(0, 1, 0)}}
+		return p, newestPick
+	case name == "bus03" && idx == 2:
+		// re-entrant subscribe / unsubscribe / clear / publish from handlers, a filter and both kinds of hooks, no Sequential self-delivery
+		p := base()
+		p.bodies[1] = []action{sub(1, hspec{fn: 2, filter: -1}), pub(1, 2, 0), {kind: "unsub", t: 0, fn: 0}, {kind: "clear", t: 1}}
+		p.bodies[2] = []action{{kind: "count", t: 0}, sub(0, hspec{fn: 4, filter: -1})}
+		p.bodies[3] = []action{{kind: "has", t: 1}}
+		p.filters[1] = filt{min: 0, acts: []action{sub(1, hspec{fn: 6, filter: -1}), {kind: "clear", t: 0}}}
+		p.opts, p.optArgs = []string{"beforeLegacy", "afterCtx"}, []int{2, 3}
+		p.threads = [][]action{{sub(0, hspec{fn: 0, seq: true, filter: 1, body: 1}), sub(0, hspec{fn: 2, filter: -1}), pub(0, 1, 0), pub(0, 2, 0), {kind: "count", t: 0}}}
+		return p, newestPick
 	case name == "bus01" && idx == 0:
 		// a filtered handler and a publish through an any-typed value
 		p := base()
@@ -357,7 +380,12 @@ func init() {
 		return busKnobs{threads: 1, ntypes: nt, async: rng.Intn(3) == 0, seq: true, once: true, panics: rng.Intn(4) == 0,
 			ctx: rng.Intn(4) == 0, hooks: rng.Intn(3) == 0, viaAny: true, actsPerThread: 10}
 	})
-	// C02: 2-4 goroutines on 1-3 shared types
+	// C03 (deadlock half): several goroutines, re-entrant calls from handlers, filters and hooks, Sequential handlers
+	fam("bus03", 200, 6000, func(rng *rand.Rand) busKnobs {
+		return busKnobs{threads: 1 + rng.Intn(3), ntypes: 1 + rng.Intn(3), async: b2(rng), seq: true, wSeq: 50, once: true,
+			panics: rng.Intn(3) == 0, ctx: rng.Intn(3) == 0, store: rng.Intn(4) == 0, hooks: b2(rng), reent: rng.Intn(3) == 0,
+			actsPerThread: 5}
+	})
 	fam("bus02", 200, 6000, func(rng *rand.Rand) busKnobs {
 		return busKnobs{threads: 2 + rng.Intn(3), ntypes: 1 + rng.Intn(3), async: rng.Intn(3) == 0, seq: rng.Intn(3) == 0,
 			once: true, actsPerThread: 4}
